@@ -205,6 +205,9 @@ fn windower_case<F: Content>(kind: &str, l: usize, b: usize, h: usize) -> Option
                 if let Some(m) = common::iterproto::check(&mk, &all_chunks, false) {
                     return Some(("windower.iter".to_string(), format!("{tag}: {m}")));
                 }
+                if let Some(m) = common::iterproto::check_clone(&mk, &all_chunks) {
+                    return Some(("windower.iter".to_string(), format!("{tag}: {m}")));
+                }
             }
         }};
     }
